@@ -80,6 +80,7 @@ type PtrDesc struct {
 
 type VC struct {
 	rangeDone    map[string]bool // range-form side axioms already emitted
+	layer        string          // property whose tagged clauses are active in this VC ("" = base contract)
 	noRangeForms bool
 	w        *World
 	fn       *ssa.Function
@@ -144,7 +145,7 @@ type strSource struct {
 }
 
 func newVC(w *World, fn *ssa.Function, c *Contract) *VC {
-	return &VC{w: w, fn: fn, contract: c, declared: map[string]bool{}, pureDone: map[*SpecFn]bool{},
+	return &VC{w: w, layer: w.layer, fn: fn, contract: c, declared: map[string]bool{}, pureDone: map[*SpecFn]bool{},
 		heapSort: map[string]string{}, strDone: map[int]bool{}, strSrc: map[string]*strSource{}, strCat: map[string][2]Val{},
 		tableDone: map[string]bool{}, ordinals: map[string]int{}, trusted: map[string]bool{}, snapArrays: map[string][]string{},
 		nonNil: map[string]bool{}, ghostSorts: map[string]string{}, revealed: map[string]bool{}, ifacePtr: map[string]*PtrDesc{}, rtypeOf: map[string]Val{}, freshKeys: map[string]bool{}, dirty: map[string]bool{}, durParts: map[string][2]string{}, hiddenTables: map[string]bool{}, defs: map[string]string{}, defW: map[string]int{}, storeDefs: map[string]storeInfo{}, untracked: map[string]bool{}, heapMods: map[string][]heapMod{}}
